@@ -56,7 +56,7 @@ F21), so nothing that will never be merged is counted in the replication status 
 theorem foreign_heads_are_not_counted (acl : Acl) (id : Nat) (hs : List RawHead) (es : List Entry)
     (h : syncHeads acl id hs [] = .load es) : ∀ e ∈ es, e.logId = id := by
   intro e he
-  obtain ⟨r, _, _, hl, _, rfl⟩ := syncHeads_loads_only_own_admitted acl id hs es h e he
+  obtain ⟨r, _, _, hl, _, _, rfl⟩ := syncHeads_loads_only_own_admitted acl id hs es h e he
   exact hl
 
 /-- Refutation witness for the tree before that repair: a head written for another log by a
